@@ -494,13 +494,42 @@ func (h *c05ErrFlow) arm(f *ssa.Function, arm *ssa.BasicBlock, e ssa.Value, vals
 	}
 	stores, raises, leaves := false, false, true
 	retIdx, retAll, rets := -1, true, 0
+	// what runs once the arm is entered: its own blocks, and a tail shared with other paths
+	// that does nothing any more (joins, the return)
+	reach := map[*ssa.BasicBlock]bool{}
+	var walk func(b *ssa.BasicBlock)
+	walk = func(b *ssa.BasicBlock) {
+		if reach[b] {
+			return
+		}
+		reach[b] = true
+		for _, sc := range b.Succs {
+			walk(sc)
+		}
+	}
+	walk(arm)
+	// execError panics: nothing after it runs
 	for _, b := range f.Blocks {
 		if !arm.Dominates(b) {
 			continue
 		}
-		for _, sc := range b.Succs {
-			if !arm.Dominates(sc) {
-				leaves = false
+		for _, in := range b.Instrs {
+			if c, ok := in.(*ssa.Call); ok && h.execError != nil && c.Call.StaticCallee() == h.execError {
+				return ""
+			}
+		}
+	}
+	for _, b := range f.Blocks {
+		if !reach[b] {
+			continue
+		}
+		if !arm.Dominates(b) {
+			for _, in := range b.Instrs {
+				switch in.(type) {
+				case *ssa.Phi, *ssa.Jump, *ssa.Return, *ssa.RunDefers, *ssa.DebugRef:
+				default:
+					leaves = false
+				}
 			}
 		}
 		for _, in := range b.Instrs {
